@@ -6,7 +6,7 @@ import ast
 from typing import Dict, List, Optional, Tuple
 
 from .. import materialize, rx
-from ..core import Ctx, assigned_names, dotted, names_in, norm, stmts_local, walk_local
+from ..core import Ctx, filter_semantics, assigned_names, dotted, names_in, norm, stmts_local, walk_local
 from ..paths import enumerate_paths, guards_of
 from ..typed import Typed, eyecite_class
 
@@ -305,16 +305,10 @@ def rule_disambiguation(ctx: Ctx):
     hm, fm = repo.mod("helpers"), repo.mod("find")
     dr = repo.need_func("helpers.disambiguate_reporters")
     P = dr.args.args[0].arg
-    rets = [r for r in walk_local(dr) if isinstance(r, ast.Return)]
-    ok, why = False, "not a single filtering comprehension"
-    if len(rets) == 1 and isinstance(rets[0].value, ast.ListComp) and len(rets[0].value.generators) == 1:
-        lc = rets[0].value
-        g = lc.generators[0]
-        v = norm(g.target)
-        if norm(g.iter) == P and norm(lc.elt) == v and len(g.ifs) == 1:
-            cond = norm(g.ifs[0])
-            ok = cond in (f"not isinstance({v}, ResourceCitation) or {v}.edition_guess", f"{v}.edition_guess or not isinstance({v}, ResourceCitation)")
-            why = f"keeps `{cond}`"
+    table = filter_semantics(dr, ["isinstance({v}, ResourceCitation)", "{v}.edition_guess"])
+    ok = table is not None and all(kept == ((not is_res) or has_guess) for (is_res, has_guess), kept in table.items())
+    why = "neither a filtering comprehension nor an append-only filter loop over the parameter" if table is None else \
+        f"kept for (is ResourceCitation, has guess) = {sorted(k for k, v_ in table.items() if v_)}"
     ctx.ob("R-C18-5", "helpers.disambiguate_reporters/only-removes", ok,
            f"an order-preserving sub-sequence keeping citations that are not resource citations or have a guessed edition ({why})", node=dr, mod=hm)
     gc = repo.need_func("find.get_citations")
